@@ -266,8 +266,7 @@ class CoopFile:
         return self._hold(self._r.peek, *a)
 
     def flush(self):
-        self._wait()
-        return self._r.flush()
+        return self._r.flush()           # BufferedReader.flush() does not take the lock (measured on CPython 3.12)
 
     def close(self):
         self._wait()
@@ -783,6 +782,49 @@ class Sched:
         return w[1].owner is None
 
 
+class _Worker:
+    """A long-lived thread that runs one job at a time (creating threads per schedule costs ~10 ms each)."""
+
+    def __init__(self):
+        self.go = _thread.allocate_lock()
+        self.go.acquire()
+        self.idle = _thread.allocate_lock()
+        self.idle.acquire()
+        self.job = None
+        self.thread = threading.Thread(target=self._loop, daemon=True)
+        self.thread.start()
+
+    def _loop(self):
+        while True:
+            self.go.acquire()
+            fn, self.job = self.job, None
+            try:
+                fn()
+            except BaseException:
+                pass
+            finally:
+                fn = None
+                self.idle.release()
+
+    def submit(self, fn):
+        self.job = fn
+        self.go.release()
+
+    def join(self, timeout):
+        return self.idle.acquire(True, timeout)
+
+
+_WORKERS = {}
+
+
+def _workers():
+    if os.getpid() != _WORKERS.get("pid"):
+        _WORKERS.clear()
+        _WORKERS["pid"] = os.getpid()
+        _WORKERS["a"], _WORKERS["b"] = _Worker(), _Worker()
+    return _WORKERS
+
+
 def run_conc(scn, pa, pb, chooser, max_steps=400, probe=True):
     """Reader thread a (program pa) and disposer thread b (program pb) on one REAL response, the server as third party
     "e".  chooser(enabled, nstep, last) -> name.  Returns the trace for RespLife_Trace."""
@@ -804,11 +846,7 @@ def run_conc(scn, pa, pb, chooser, max_steps=400, probe=True):
                 ctx.t[n]["pc"] = "Idle" if progs[n] else "Done"
 
             def body(n):
-                s.names[threading.get_ident()] = n
-                s.gate[n].acquire()
                 try:
-                    if s.aborting:
-                        raise Abort()
                     for op in progs[n]:
                         s.yield_point("Idle")
                         ctx.call(n, op)
@@ -829,9 +867,10 @@ def run_conc(scn, pa, pb, chooser, max_steps=400, probe=True):
                     continue
                 s.gate[n] = _thread.allocate_lock()
                 s.gate[n].acquire()
-                threads[n] = threading.Thread(target=body, args=(n,), daemon=True)
-                threads[n].start()
-                s.gate[n].release()          # run up to the park before the first call
+                w = _workers()[n]
+                s.names[w.thread.ident] = n
+                threads[n] = w
+                w.submit(lambda n=n: body(n))  # runs up to the park before the first call
                 if not s.main.acquire(timeout=30):
                     raise tlc.MachineryError("scheduler: thread did not reach its first yield point")
             nextop = {n: 0 for n in progs}
@@ -873,14 +912,16 @@ def run_conc(scn, pa, pb, chooser, max_steps=400, probe=True):
         finally:
             s.aborting = True
             _ACTIVE[0] = None
-            for n, th in threads.items():
-                if th.is_alive():
+            for n, w in threads.items():
+                if n not in s.done:
                     try:
                         s.gate[n].release()
                     except RuntimeError:
                         pass
-            for th in threads.values():
-                th.join(10)
+            for n, w in threads.items():
+                if not w.join(10):
+                    _WORKERS.clear()
+                    raise tlc.MachineryError(f"scheduler: thread {n} could not be torn down ({scn}, {pa}, {pb})")
             ctx.net.sched = None
         if s.errors:
             raise tlc.MachineryError(f"scheduler: thread leaked {s.errors}")
